@@ -65,6 +65,16 @@ CHECKS["C18"] = ("shard", "exploration",
     "Shards are re-exported under 4 keys (incl. zero) x 8 include-flag combinations; the exported bytes must carry keyed chunk hashes and table keys only, unchanged xorb/file hashes, sections iff requested, creation/expiry from the simulated clock; a manager over only the keyed export must answer unkeyed queries exactly like a manager over the original whenever the first chunk is unambiguous (with and without lookup tables); shards past expiry never load, deletion only at expiry+grace.",
     SHARD_NOTE, "§7 C18")
 
+XORB_NOTE = "Trusted: the independent xorb parser and hash code (sim/src/refmodel.rs), blake3; compressed chunk payloads are compared through the original input (C07) or decoded with /repo's own decoder (C08.d), since no independent LZ4/BG4 decoder is available offline."
+CHECKS["C07"] = ("stream/xorb", "exploration",
+    "reader-seam simulation (seeded short reads on Read+Seek, tokio AsyncRead with short reads and Pending, Stream<Bytes> fragmentation) of the xorb decoders against the original bytes and an independent xorb parser",
+    "Chunk lists of 1..600 chunks (1 B..128 KiB, every residue mod 4; random, compressible, float-like content) are serialised by the real code under None/LZ4/BG4+LZ4/automatic selection and read back whole, by every chunk range (all ranges up to 12 chunks, sampled beyond) and through the three chunk decoders under simulated delivery; boundaries, unpacked offsets and lengths are compared with the input. Inputs are seeded generation; the simulated part is the reader side.",
+    XORB_NOTE, "§7 C07")
+CHECKS["C08"] = ("stream/xorb", "fault_enumeration",
+    "fault injection on stored/transmitted xorb bytes (enumerated single-byte flips of every header/footer byte and truncation at every offset for small objects; seeded splices, field inflation, random strings) with panic capture, counting allocator and independent re-verification of every acceptance",
+    "Both validators and the footer parser run on valid objects (own hash, other hash) and on mutants; never a panic, never a single allocation >= 64 MiB for <= 1 MiB input, valid accepted / other hash rejected, and every acceptance is re-verified: chunk section decodes, recomputed hash equals the accepted hash, returned footer fields agree with the chunk data. Per enumerated object the flip/truncation positions are complete; objects and multi-byte mutations are sampled.",
+    XORB_NOTE, "§7 C08")
+
 NOT_APPLICABLE = {
     "C06": "Every clause is a pure function of its input (hash identities, text-form round trips, avalanche); there is no schedule, clock, fault or history for a simulator to control, so deterministic simulation does not apply (DESIGN §7 C06). The independent hash implementations are exercised as oracles of C02/C03/C08.",
 }
